@@ -15,7 +15,7 @@ RULE = ("cases: every tensor op and nn op/layer/loss of the catalogues x {float3
         "retained interior gradient; float32 result agrees with the float64 result to 1e-4*max(1,|.|max).  "
         "non-trivial: result is 0-d, or operands broadcast / have different shapes, or g.dtype != result.dtype, "
         "or a Python-scalar operand, or the retained-interior form; distinct by hash of the case"
-        " Also: mixed operand dtypes for the gradient rule, backward re-rooted on leaves, BatchNorm train->eval histories (buffer dtypes), tensors of 4,000-70,000 elements.")
+        " Also: mixed operand dtypes for the gradient rule, backward re-rooted on leaves, BatchNorm train->eval histories (buffer dtypes), tensors of 4,000-70,000 elements; histories on 0-d..2-d leaves / nn.Parameters of both dtypes (direct backward with either upstream dtype, mixed-dtype graphs, zero_(), Module.zero_grad(), Optimizer.zero_grad()) with .grad dtype and shape checked after every command.")
 ASSUMPTIONS = ["operands of one call share a dtype (mixed-dtype operands are not part of the statement)",
                "reference shapes come from the NumPy reference models of the catalogues"]
 
@@ -123,6 +123,92 @@ def mixed_case(draw, op):
     return c
 
 
+# ---- histories on leaves / parameters of both dtypes: .grad keeps the tensor's dtype and shape ------------
+class _Holder(sg.nn.Module):
+    def forward(self, x):
+        return x
+
+
+@st.composite
+def leaf_hist_cases(draw):
+    n = draw(st.integers(2, 4))
+    leaves = [{"shape": draw(st.sampled_from([[], [], [1], [3], [2, 3], [1, 1]])), "dtype": draw(st.sampled_from(["float32", "float64"])),
+               "param": draw(st.booleans())} for _ in range(n)]
+    cmds = []
+    for _ in range(draw(st.integers(2, 9))):
+        k = draw(st.sampled_from(["direct", "direct", "graph", "graph", "zero_", "module_zero_grad", "optimizer_zero_grad"]))
+        cmds.append({"k": k, "i": draw(st.integers(0, 7)), "j": draw(st.integers(0, 7)), "gdtype": draw(st.sampled_from(["same", "other"])),
+                     "op": draw(st.sampled_from(["mul", "add", "matmul_like", "stack"]))})
+    return {"leaves": leaves, "cmds": cmds}
+
+
+def check_leaf_hist(c, rec):
+    ts = []
+    for i, l in enumerate(c["leaves"]):
+        dt = np.dtype(l["dtype"])
+        t = Tensor(np.full(l["shape"], 0.5 + i, dtype=dt), requires_grad=True)
+        ts.append(sg.nn.Parameter(t) if l["param"] else t)
+    holder = _Holder()
+    for i, t in enumerate(ts):
+        if c["leaves"][i]["param"]:
+            setattr(holder, f"p{i}", t)
+    params = [t for i, t in enumerate(ts) if c["leaves"][i]["param"]]
+    opt = sg.optim.SGD(params, lr=0.1) if params else None
+    hist = []
+    kinds = set()
+
+    def verify():
+        for i, t in enumerate(ts):
+            g = t.grad
+            if g is None:
+                continue
+            if tuple(g.shape) != tuple(t.shape):
+                raise Violation("grad_shape", f"leaf {i} {c['leaves'][i]}: grad shape {g.shape} != {t.shape}; history={hist}", region="leaf_history")
+            if g.dtype != t.dtype:
+                raise Violation("grad_dtype", f"leaf {i} {c['leaves'][i]}: grad dtype {g.dtype} != tensor dtype {t.dtype}; history={hist}",
+                                region="leaf_history")
+
+    for cmd in c["cmds"]:
+        a = ts[cmd["i"] % len(ts)]
+        b = ts[cmd["j"] % len(ts)]
+        k = cmd["k"]
+        try:
+            if k == "direct":
+                gdt = a.dtype if cmd["gdtype"] == "same" else (np.float32 if a.dtype == np.float64 else np.float64)
+                a.backward(Tensor(np.ones(a.shape, dtype=gdt)))
+                hist.append(f"leaf{cmd['i'] % len(ts)}.backward(g:{np.dtype(gdt)})")
+            elif k == "graph":
+                if cmd["op"] == "stack" and a.shape == b.shape:
+                    r = sg.stack([a, b], 0).sum()
+                elif cmd["op"] == "add":
+                    r = (a.sum() + b.sum())
+                else:
+                    r = (a.sum() * b.sum())
+                r.backward()
+                hist.append(f"({cmd['op']} of leaf{cmd['i'] % len(ts)}, leaf{cmd['j'] % len(ts)}).backward()")
+                if a.dtype != b.dtype:
+                    kinds.add("mixed_dtype_graph")
+            elif k == "zero_":
+                a.zero_()
+                hist.append(f"leaf{cmd['i'] % len(ts)}.zero_()")
+            elif k == "module_zero_grad":
+                holder.zero_grad()
+                hist.append("module.zero_grad()")
+                kinds.add("module_zero_grad")
+            elif k == "optimizer_zero_grad" and opt is not None:
+                opt.zero_grad()
+                hist.append("optimizer.zero_grad()")
+            else:
+                continue
+        except Exception as e:  # noqa: BLE001
+            raise Violation("history_raised", f"{k} raised {type(e).__name__}: {e}; history={hist}", region="leaf_history")
+        verify()
+    rec.nontrivial(len(hist) >= 3 and len({l["dtype"] for l in c["leaves"]}) == 2)
+    rec.tag(*sorted(kinds))
+    if any(l["shape"] == [] for l in c["leaves"]):
+        rec.tag("0d_leaf")
+
+
 # ---- batch-norm layers over a short train/eval history: buffers and outputs keep the layer dtype ----
 @st.composite
 def bn_hist_cases(draw):
@@ -211,5 +297,6 @@ def subchecks():
         subs.append(SubCheck("nn_" + op.name, make_check(op), (lambda op=op: mixed_case(op)),
                              quick=150 if op.name in heavy else 250, thorough=2000, shards_quick=1, shards_thorough=2))
     subs.append(SubCheck("bn_history", check_bn_hist, bn_hist_cases, quick=300, thorough=3000))
+    subs.append(SubCheck("leaf_history", check_leaf_hist, leaf_hist_cases, quick=500, thorough=6000, shards_quick=2, shards_thorough=4))
     subs.append(SubCheck("large_tensors", check_big, big_cases, quick=120, thorough=1500, shards_quick=2, shards_thorough=4))
     return subs
